@@ -30,8 +30,12 @@
       `-     ---` is `<hr>`), needed only if the `hr` rule stands in front of the list rule (it does in the
       stock chain); no such condition for fences (a fence line holds a backtick or tilde);
     * `depthCost w < max_nesting`.
+  Code SPANS (section 8): the block half — `doc_para_blocks_nested`: a one-line paragraph inside `w` keeps its
+  inline text (the placeholder `InlineRoot` holds the same `c`, table moved by the prefixes) — is proved; the
+  inline half is OPEN already at top level (precise missing lemmas in the `OPEN:` block at the end).
 -/
 import MdIt.Lemmas.C11Nested
+import MdIt.Lemmas.C11NestedPara
 set_option linter.unusedSimpArgs false
 set_option linter.unusedVariables false
 
@@ -702,5 +706,299 @@ theorem doc_indented_render_nested (hsp : cfg.sourcepos = false) (x : Bool) :
   exact h
 
 end code
+
+
+/-! ## 6. instances: the stock chain, decidability of the side conditions -/
+
+instance (ds : List Char) (dl : Char) : Decidable (OrdMk ds dl) :=
+  decidable_of_iff (ds ≠ [] ∧ ds.length ≤ 9 ∧ (∀ c ∈ ds, isDigit c = true) ∧ (dl = '.' ∨ dl = ')'))
+    ⟨fun ⟨a, b, c, d⟩ => ⟨a, b, c, d⟩, fun h => ⟨h.ne, h.len, h.digits, h.delim⟩⟩
+
+instance (x : Wrapper) : Decidable x.Ok := by
+  cases x <;> unfold Wrapper.Ok <;> infer_instance
+
+/-- the shipped block chain satisfies the chain condition for every wrapper list -/
+theorem chainFor_stock (w : List Wrapper) :
+    ChainFor [.code, .fence, .blockquote, .hr, .list, .reference, .heading, .lheading, .paragraph] w :=
+  ⟨fun _ => ⟨by decide, by decide⟩, fun _ => ⟨by decide, by decide⟩⟩
+
+/-- a convenient form of the thematic-break condition: the first payload line holds a character that is
+    neither blank nor one of `-`, `*`, `_` -/
+theorem hrFree_four {t0 : List Char} {c : Char} (hc : c ∈ t0)
+    (hx : c ≠ ' ' ∧ c ≠ '\t' ∧ c ≠ '-' ∧ c ≠ '*' ∧ c ≠ '_') (w : List Wrapper) : HrFree w (four ++ t0) :=
+  hrFree_of_mem (List.mem_append_right _ hc) hx w
+
+/-! ## 7. examples, and the necessity of the hypotheses -/
+
+section examples
+
+/-- the wrapped document, spelled out: `a<b` fenced, in a bullet item, in a block quote -/
+example : wrapAll [.quote, .bullet '-'] (fenceDoc '`' 3 [['a', '<', 'b']]) = "> - ```\n>   a<b\n>   ```".toList := by
+  decide +kernel
+
+/-- the HTML of the three kinds of wrapper -/
+example : wrapHtml [.quote] ['X', '\n'] = "<blockquote>\nX\n</blockquote>\n".toList ∧
+    wrapHtml [.bullet '*'] ['X', '\n'] = "<ul>\n<li>\nX\n</li>\n</ul>\n".toList ∧
+    wrapHtml [.ordered ['1'] '.'] ['X', '\n'] = "<ol>\n<li>\nX\n</li>\n</ol>\n".toList ∧
+    wrapHtml [.ordered ['1', '2'] ')'] ['X', '\n'] = "<ol start=\"12\">\n<li>\nX\n</li>\n</ol>\n".toList ∧
+    wrapHtml [.quote, .bullet '-'] ['X', '\n'] =
+      "<blockquote>\n<ul>\n<li>\nX\n</li>\n</ul>\n</blockquote>\n".toList := by
+  decide +kernel
+
+/-- `doc_fence_render_nested` applies on the stock chain: two wrapper levels (quote around bullet item),
+    payload `a<b`, a line of two backticks, an empty line -/
+example (x : Bool) :
+    renderDoc x (exCfg false 100) (wrapAll [.quote, .bullet '-'] (fenceDoc '`' 3 [['a', '<', 'b'], ['`', '`'], []])) =
+      .ok (wrapHtml [.quote, .bullet '-'] ("<pre><code>".toList ++
+        escapeHtml (Render.nulStr "a<b\n``\n\n".toList) ++ "</code></pre>\n".toList)) :=
+  doc_fence_render_nested '`' (.inl rfl) 3 (by omega) _ (by decide) (by decide) (by decide) (exCfg false 100)
+    (by decide) (by decide) [.quote, .bullet '-'] (by decide) (chainFor_stock _) (by decide) (by decide +kernel) rfl x
+
+/-- the same by evaluation: the exact string -/
+example : renderDoc false (exCfg false 100) "> - ```\n>   a<b\n>   ```".toList =
+    .ok "<blockquote>\n<ul>\n<li>\n<pre><code>a&lt;b\n</code></pre>\n</li>\n</ul>\n</blockquote>\n".toList := by
+  decide +kernel
+
+/-- with the `sourcepos` plugin (`doc_fence_render_nested_sp`): every wrapper node spans from its marker on
+    line 1 to the end of the source, the fence starts behind both prefixes -/
+example : renderDoc false (exCfg true 100) "> - ```\n>   a<b\n>   ```".toList =
+    .ok ("<blockquote data-sourcepos=\"1:1-3:7\">\n<ul data-sourcepos=\"1:3-3:7\">\n<li data-sourcepos=\"1:3-3:7\">\n" ++
+      "<pre><code data-sourcepos=\"1:5-3:7\">a&lt;b\n</code></pre>\n</li>\n</ul>\n</blockquote>\n").toList := by
+  decide +kernel
+
+/-- the tree of `doc_fence_verbatim_nested`: `Root[Blockquote[BulletList[ListItem[CodeFence]]]]`, the wrapper
+    nodes from bytes 0 / 2 / 2, the fence from byte 4, all to byte 23 (the end of the source) -/
+example : parseDoc (exCfg false 100) (wrapAll [.quote, .bullet '-'] (fenceDoc '`' 3 [['a', '<', 'b']])) =
+    .ok ⟨.blk .root, some (0, 23), [],
+      [⟨.blk .blockquote, some (0, 23), [],
+        [⟨.blk (.bulletList '-'), some (2, 23), [],
+          [⟨.blk .listItem, some (2, 23), [],
+            [⟨.blk (.codeFence [] '`' 3 ['a', '<', 'b', '\n']), some (4, 23), [], []⟩]⟩]⟩]⟩]⟩ := by
+  have h := doc_fence_verbatim_nested '`' (.inl rfl) 3 (by omega) [['a', '<', 'b']] (by decide) (by decide) (by decide)
+    (exCfg false 100) (by decide) (by decide) [.quote, .bullet '-'] (by decide) (chainFor_stock _) (by decide)
+    (by decide +kernel) rfl
+  have hE : Lines.byteLen (wrapAll [.quote, .bullet '-'] (fenceDoc '`' 3 [['a', '<', 'b']])) = 23 := by decide +kernel
+  rw [h, hE]
+  rfl
+
+/-- `doc_indented_render_nested` applies: an ordered item (`12)`, `<ol start="12">`) around a block quote,
+    payload `a<`, an empty line, `b` -/
+example (x : Bool) :
+    renderDoc x (exCfg false 100) (wrapAll [.ordered ['1', '2'] ')', .quote] (indentedDoc [['a', '<'], [], ['b']])) =
+      .ok (wrapHtml [.ordered ['1', '2'] ')', .quote] ("<pre><code>".toList ++
+        escapeHtml (Render.nulStr "a<\n\nb\n".toList) ++ "</code></pre>\n".toList)) :=
+  doc_indented_render_nested [['a', '<'], [], ['b']] (by decide) (by decide) (by decide) (by decide) (by decide)
+    (exCfg false 100) (by decide) (by decide) [.ordered ['1', '2'] ')', .quote] (by decide) (chainFor_stock _)
+    (fun _ _ => hrFree_four (c := 'a') (by simp) (by decide) _) (by decide) (by decide +kernel) rfl x
+
+example : wrapAll [.ordered ['1', '2'] ')', .quote] (indentedDoc [['a', '<'], [], ['b']]) =
+    "12) >     a<\n    >     \n    >     b".toList := by decide +kernel
+
+example : renderDoc false (exCfg false 100) "12) >     a<\n    >     \n    >     b".toList =
+    .ok "<ol start=\"12\">\n<li>\n<blockquote>\n<pre><code>a&lt;\n\nb\n</code></pre>\n</blockquote>\n</li>\n</ol>\n".toList := by
+  decide +kernel
+
+/-- `depthCost w < max_nesting` is needed: quote + item cost 3; at `max_nesting = 3` the item stays empty, at 4
+    the code is there -/
+example : renderDoc false (exCfg false 3) "> - ```\n>   a<b\n>   ```".toList =
+      .ok "<blockquote>\n<ul>\n<li></li>\n</ul>\n</blockquote>\n".toList ∧
+    renderDoc false (exCfg false 4) "> - ```\n>   a<b\n>   ```".toList =
+      .ok "<blockquote>\n<ul>\n<li>\n<pre><code>a&lt;b\n</code></pre>\n</li>\n</ul>\n</blockquote>\n".toList := by
+  decide +kernel
+
+/-- the thematic-break condition is needed for INDENTED code in a bullet item (`hr` stands in front of
+    `list` in the stock chain): the payload `---` behind four spaces in a `-` item is a thematic break — so
+    is the payload `-` in two nested `-` items —, while in a `*` item it is code -/
+example : wrapAll [.bullet '-'] (indentedDoc [['-', '-', '-']]) = "-     ---".toList ∧
+    ¬ HrFree [.bullet '-'] (four ++ ['-', '-', '-']) ∧
+    renderDoc false (exCfg false 100) "-     ---".toList = .ok "<hr>\n".toList ∧
+    wrapAll [.bullet '-', .bullet '-'] (indentedDoc [['-']]) = "- -     -".toList ∧
+    renderDoc false (exCfg false 100) "- -     -".toList = .ok "<hr>\n".toList ∧
+    renderDoc false (exCfg false 100) "*     ---".toList =
+      .ok "<ul>\n<li>\n<pre><code>---\n</code></pre>\n</li>\n</ul>\n".toList := by
+  refine ⟨by decide +kernel, ?_, by decide +kernel, by decide +kernel, by decide +kernel, by decide +kernel⟩
+  intro h
+  have h1 : hrLook 0 ('-' :: ' ' :: (four ++ ['-', '-', '-'])) = false := h.1
+  have h2 : hrLook 0 ('-' :: ' ' :: (four ++ ['-', '-', '-'])) = true := by decide +kernel
+  rw [h1] at h2
+  cases h2
+
+/-- `Wrapper.Ok` is needed: a ten-digit number is not a list marker (the fence becomes a code SPAN in a
+    paragraph), nor is `_` a bullet -/
+example : ¬ (Wrapper.ordered "1234567890".toList '.').Ok ∧ ¬ (Wrapper.bullet '_').Ok ∧
+    renderDoc false (exCfg false 100) (wrapAll [.ordered "1234567890".toList '.'] (fenceDoc '`' 3 [['a']])) =
+      .ok "<p>1234567890. <code>            a            </code></p>\n".toList ∧
+    renderDoc false (exCfg false 100) (wrapAll [.bullet '_'] (fenceDoc '`' 3 [['a']])) =
+      .ok "<p>_ ```\na</p>\n<pre><code></code></pre>\n".toList := by
+  decide +kernel
+
+/-- the chain condition is needed: with the paragraph rule in front of the block-quote rule the wrapped
+    document is three paragraphs (the quote rule, still in the chain, interrupts each) -/
+example : renderDoc false { exCfg false 100 with blockChain := [.fence, .paragraph, .blockquote] } "> ~~~\n> a\n> ~~~".toList =
+    .ok "<p>&gt; ~~~</p>\n<p>&gt; a</p>\n<p>&gt; ~~~</p>\n".toList := by decide +kernel
+
+/-- … and the thematic-break condition is needed ONLY when `hr` stands in front of `list`: with `list` first,
+    `-     ---` is an item around the code `---` -/
+example : renderDoc false { exCfg false 100 with blockChain := [.code, .fence, .list, .hr] } "-     ---".toList =
+    .ok "<ul>\n<li>\n<pre><code>---\n</code></pre>\n</li>\n</ul>\n".toList := by decide +kernel
+
+/-- TAB-FREENESS is a restriction of the proof (C06's simulations are stated for tab-free documents), not
+    known to be necessary for these documents: a payload tab stands behind the fence's / the code block's
+    own indentation, which the wrapper prefixes extend by spaces only, so it is never split.  Instances by
+    evaluation (not covered by the theorems above): -/
+example : renderDoc false (exCfg false 100) (wrapAll [.quote] (fenceDoc '`' 3 [[' ', '\t', 'a']])) =
+      .ok "<blockquote>\n<pre><code> \ta\n</code></pre>\n</blockquote>\n".toList ∧
+    renderDoc false (exCfg false 100) (wrapAll [.bullet '-'] (indentedDoc [['a'], ['\t', 'a']])) =
+      .ok "<ul>\n<li>\n<pre><code>a\n\ta\n</code></pre>\n</li>\n</ul>\n".toList ∧
+    renderDoc false (exCfg false 100) (wrapAll [.ordered ['1'] '.'] (indentedDoc [['\t', 'a']])) =
+      .ok "<ol>\n<li>\n<pre><code>\ta\n</code></pre>\n</li>\n</ol>\n".toList := by
+  decide +kernel
+
+end examples
+
+
+/-! ## 8. code SPANS inside containers: what is proved, what is open -/
+
+section span
+
+/-- `parseBlocks_para_nested` in terms of the document configuration: a one-line paragraph document `l` (tab-free,
+    no terminator, starting with a non-blank character; block parse `Root[Paragraph[InlineRoot c m]]`) wrapped in
+    `w` has the block tree `wrapForest w` around the paragraph — or around the bare placeholder in a (tight) list
+    item — whose inline text is the SAME `c`, per-line table moved by the prefixes' width. -/
+theorem doc_para_blocks_nested (cfg : DocCfg) (c : List Char) (m : List (Nat × Nat)) (a : Nat) (l : List Char)
+    (g : Good [l]) (hf : FirstLineOk l) (ha : a ≤ Lines.byteLen l) (hm : ∀ kv ∈ m, kv.2 ≤ Lines.byteLen l)
+    (w : List Wrapper) (hw : ∀ x ∈ w, x.Ok) (hch : ChainFor cfg.blockChain w)
+    (hhr : .hr ∈ cfg.blockChain.takeWhile (· ≠ .list) → HrFree w l)
+    (hmn : depthCost w < cfg.maxNesting)
+    (hsize : Lines.byteLen (wrapAll w l) + 20 < 2147483648)
+    (hbase : parseBlocks { cfg.blockCfg with maxNesting := cfg.maxNesting - depthCost w } l =
+      .ok (⟨.root, some (0, Lines.byteLen l), [⟨.paragraph, some (a, Lines.byteLen l), [⟨.inlineRoot c m, none, []⟩]⟩]⟩, [])) :
+    wrapAll w l = firstLine w l ∧
+    ∃ tg, parseBlocks cfg.blockCfg (wrapAll w l) =
+      .ok (⟨.root, some (0, Lines.byteLen (wrapAll w l)),
+            wrapForest (Lines.byteLen (wrapAll w l)) w 0
+              (paraLeaf c m a (widthAll w) (Lines.byteLen (wrapAll w l)) tg)⟩, []) := by
+  have hdoc : wrapAll w l = firstLine w l := by
+    have := wrapAll_docOf hw g
+    rwa [wrapAllLines_single, docOf_single, docOf_single] at this
+  refine ⟨hdoc, ?_⟩
+  rw [hdoc] at hsize ⊢
+  have := parseBlocks_para_nested { cfg.blockCfg with maxNesting := cfg.maxNesting - depthCost w }
+    (by show 0 < cfg.maxNesting - depthCost w; omega) c m a l g hf ha hm (by rw [docOf_single]; exact hbase) w hw hch hhr
+    (by rw [docOf_single]; exact hsize)
+  rw [blockCfg_nest cfg _ hmn] at this
+  simpa only [docOf_single] using this
+
+mutual
+/-- structural equality of block trees, as a Boolean (for the example below: `BNode` has no `DecidableEq`) -/
+def beqN : BNode → BNode → Bool
+  | ⟨k1, r1, c1⟩, ⟨k2, r2, c2⟩ => decide (k1 = k2) && decide (r1 = r2) && beqL c1 c2
+def beqL : List BNode → List BNode → Bool
+  | [], [] => true
+  | a :: as, b :: bs => beqN a b && beqL as bs
+  | _, _ => false
+end
+
+mutual
+theorem beqN_sound : ∀ (a b : BNode), beqN a b = true → a = b
+  | ⟨k1, r1, c1⟩, ⟨k2, r2, c2⟩, h => by
+    simp only [beqN, Bool.and_eq_true, decide_eq_true_eq] at h
+    obtain ⟨⟨rfl, rfl⟩, h3⟩ := h
+    rw [beqL_sound c1 c2 h3]
+theorem beqL_sound : ∀ (a b : List BNode), beqL a b = true → a = b
+  | [], [], _ => rfl
+  | a :: as, b :: bs, h => by
+    simp only [beqL, Bool.and_eq_true] at h
+    rw [beqN_sound a b h.1, beqL_sound as bs h.2]
+  | [], _ :: _, h => by simp [beqL] at h
+  | _ :: _, [], h => by simp [beqL] at h
+end
+
+/-- the line `` a<`` `*x` ``>b `` — a code span (two backticks, content `` `*x` ``) between other text -/
+def spanLine : List Char := "a<`` `*x` ``>b".toList
+
+/-- the hypotheses of `doc_para_blocks_nested` hold for `spanLine` in a quote in a bullet item on the stock chain:
+    the placeholder inside the containers holds the whole line as inline text, table `[(0, 4)]` -/
+example : ∃ tg, parseBlocks (exCfg false 100).blockCfg "- > a<`` `*x` ``>b".toList =
+    .ok (⟨.root, some (0, 18),
+      [⟨.bulletList '-', some (0, 18), [⟨.listItem, some (0, 18),
+        [⟨.blockquote, some (2, 18),
+          paraLeaf spanLine [(0, 0)] 0 4 18 tg⟩]⟩]⟩]⟩, []) := by
+  have hb : (match parseBlocks { (exCfg false 100).blockCfg with maxNesting := 100 - depthCost [.bullet '-', .quote] } spanLine with
+      | .ok (n, refs) => beqN n ⟨.root, some (0, Lines.byteLen spanLine),
+          [⟨.paragraph, some (0, Lines.byteLen spanLine), [⟨.inlineRoot spanLine [(0, 0)], none, []⟩]⟩]⟩ && refs.isEmpty
+      | .error _ => false) = true := by decide +kernel
+  have hbase : parseBlocks { (exCfg false 100).blockCfg with maxNesting := 100 - depthCost [.bullet '-', .quote] } spanLine =
+      .ok (⟨.root, some (0, Lines.byteLen spanLine),
+        [⟨.paragraph, some (0, Lines.byteLen spanLine), [⟨.inlineRoot spanLine [(0, 0)], none, []⟩]⟩]⟩, []) := by
+    cases h : parseBlocks { (exCfg false 100).blockCfg with maxNesting := 100 - depthCost [.bullet '-', .quote] } spanLine with
+    | error e => rw [h] at hb; cases hb
+    | ok p =>
+      obtain ⟨n, refs⟩ := p
+      rw [h] at hb
+      simp only [Bool.and_eq_true, List.isEmpty_iff] at hb
+      rw [beqN_sound _ _ hb.1, hb.2]
+  obtain ⟨hdoc, tg, h⟩ := doc_para_blocks_nested (exCfg false 100) spanLine [(0, 0)] 0 spanLine
+    ⟨by decide, by decide +kernel, by decide +kernel, by decide +kernel⟩ ⟨by decide +kernel, .inl (by decide +kernel)⟩
+    (Nat.zero_le _) (by decide) [.bullet '-', .quote] (by decide) (chainFor_stock _)
+    (fun _ => hrFree_of_mem (x := 'a') (by decide +kernel) (by decide) _) (by decide) (by decide +kernel) hbase
+  have e1 : wrapAll [.bullet '-', .quote] spanLine = "- > a<`` `*x` ``>b".toList := by decide +kernel
+  have e2 : Lines.byteLen "- > a<`` `*x` ``>b".toList = 18 := by decide +kernel
+  rw [e1, e2] at h
+  exact ⟨tg, h⟩
+
+/-- what the whole pipeline does with it (by evaluation): the span's content, backtick and star included, verbatim -/
+example : renderDoc false (exCfg false 100) "- > a<`` `*x` ``>b".toList =
+    .ok "<ul>\n<li>\n<blockquote>\n<p>a&lt;<code>`*x`</code>&gt;b</p>\n</blockquote>\n</li>\n</ul>\n".toList := by
+  decide +kernel
+
+end span
+
+/-
+OPEN: `doc_span_verbatim_nested` — the code-span context of C11 inside containers, through the INLINE pass.
+
+  theorem doc_span_verbatim_nested (pre T W : List Char) (k : Nat) (hT : T ≠ [])
+      (hruns : ¬ List.replicate (k + 1) '`' <:+: T) (hW : W.head? ≠ some '`')
+      -- one line: no terminator, no tab in `l := pre ++ (`ᵏ⁺¹ ␠ T ␠ `ᵏ⁺¹) ++ W`; `l` a paragraph line (starts with
+      -- a non-blank character that no other block rule claims); `pre` free of backticks and of unclosed
+      -- link / emphasis constructs that could swallow the span
+      (w : List Wrapper) … (conditions of `doc_para_blocks_nested`) :
+      ∃ before after, renderDoc x cfg (wrapAll w l) =
+        .ok (wrapHtml w (<p>? ++ before ++ "<code>" ++ escape_html T ++ "</code>" ++ after ++ </p>? ++ "\n"))
+
+  Proved here: the BLOCK half — `doc_para_blocks_nested` / `parseBlocks_para_nested`: inside the containers the
+  placeholder `InlineRoot` holds exactly the inline text `c` it holds at top level (for a one-line paragraph: the
+  line), so every statement about `Inline.parseInline icfg c _` made at top level applies verbatim; the rule-level
+  `CodePair.span_verbatim_ctx` is a statement about that text only.
+  Missing, ALREADY AT TOP LEVEL (no `doc_span_verbatim` exists in `Lemmas/C14DocVerbatim.lean` either):
+    (1) `Inline.tokenize` reaches byte `|pre|` of `c` with a cache satisfying `CodePair.CacheInv` and
+        `insideFailed.contains |pre| = false`, i.e. a lemma
+          `tokenize_reaches : (no rule of the chain consumes across byte |pre| of c) →
+             the backticks rule is called at pos = |pre| with posMax ≥ the closer's end, cache c₀, CacheInv c₀`
+        (`CodePair.cacheInv_run` preserves the invariant per call; the inline loop that threads the cache
+        through `IState` has no such invariant stated in `Props/Inline.lean` / `Lemmas/InlineRules*.lean`);
+    (2) the node the rule returns (`codeInline`, one `Text (normalise T)` child) survives the post-passes
+        (`balance_pairs`, `fragments_join`, text merge) unchanged — true because it is not a text / emphasis
+        marker node, not stated anywhere;
+    (3) mapping independence for the wrapped document is available: `Inline.XS.parseInline_exact`
+        (Lemmas/C10SpFullInline.lean: same values under two `MapOK` tables with `MLe`), applicable since the
+        table here is `m` moved by `widthAll w`.
+  With (1)–(2) at top level, the nested statement follows from `doc_para_blocks_nested` + (3) + the renderer
+  lemmas of section 2 (`blocky_wrapper`; a tight item renders `<li>` + inline HTML + `</li>`, which is not `Blocky`:
+  one more case in `out_item`).
+  Multi-line spans inside containers: the inline text of a multi-line paragraph in a quote / item is the lines
+  with the prefixes stripped (C06 `get_lines_quote` / `get_lines_item`: content equal), so the same route works;
+  `parseBlocks_para_nested` is stated for ONE line because its relocation lemma uses that every position of the
+  tree lies on line 0.
+
+RESTRICTION (not a gap of the model): payload TABS.  All theorems of this file assume a tab-free payload,
+inherited from C06 (`quote_commutes`, `item_commutes_*` are stated for tab-free documents because a tab's width
+depends on the column the prefix moves it to).  For the two code documents the tab never straddles the stripped
+columns (it stands behind the fence's / the code block's own indentation), evaluation agrees with the Rust on
+tabbed payloads (examples in section 7), but the general statement needs C06's simulations for documents whose
+tabs stand behind ≥ (indent) spaces — missing lemma: `Tbl`/`Sim` of Props/C06.lean and Lemmas/C06ListSim.lean with
+`'\t' ∉ lead l` in place of `'\t' ∉ l` (the views `quote_view` / `item_view` only expand tabs of the LEADING
+blanks).  Payload tabs are covered at top level (`doc_fence_verbatim`, `doc_indented_verbatim`).
+-/
 
 end MdIt.C11N
